@@ -26,7 +26,7 @@ import (
 func init() {
 	Register(&Check{
 		Spec: core.Spec{ID: "C19", Level: "exploration",
-			Rule:        "case = an engine-written multi-block file (all three codecs across cases; every eighth case zstd blocks of repetitive rows that decode to several hundred KiB from about a KiB, far beyond 32x their stored size) x a batch of mutated inputs, each written to disk before it is used. Byte mutations: single/multi bit flips, byte bursts, truncation at every structural boundary +-1, extension, splices from another file, zeroed ranges, each targeted at row data, filter region, file filter section, metadata JSON, CRC, length, version, magic. Framing mutations: the footer JSON re-encoded with a consistent CRC and one or two of {region offset/size, block row-data offset/size, block filter offset/size, file filter section size, block UncompressedSize, block Rows} set to boundary values (-1, 0, 1, size+-1, 2^31+-1, 2^40, 2^62, int64 extremes) or PRNG values. Deep mutations (every 4th input): the file is taken apart with the independent parser and re-assembled with every checksum (row-data hash, section CRC, metadata CRC) and extent consistent but one part malformed inside: a row stream with an overrunning / short / truncated length prefix, a row that is not a JSON object, a zero-length row, a doubled stream; a block or file-level filter section with unknown flag bits, flags claiming absent filters, an arbitrary filter length, trailing bytes, a bloom header field (m, k, bitset length) at a boundary value, a garbage or cut payload; UncompressedSize or Rows disagreeing with the stream; stored bytes that are not a stream of the declared codec. Hash-less leg (per case, before the inputs): a MemoryMetaStore holds the file's metadata with the optional row-data hashes removed, the bytes live in a FileSystemDataStore (os.File handles), and the file is cut at every block boundary +-1, mid-block and at PRNG points: ReadDataBlockRowData over an os.File and a bytes.Reader must fail for every extent that runs past the end, blocks wholly inside must yield written rows, and queries must answer exactly or report an error. Per input: ReadFileMetadata, then ReadDataBlockRowData / ReadDataBlockBloomFilters / BlockRowScanner with the metadata it returned (or the original metadata), a query through MemoryMetaStore holding the original metadata over the mutated bytes, and a query through FileSystemDataStore scanning the mutated file. Oracle: no panic or fatal error; TotalAlloc delta per call <= 16 x (file size + the bytes the blocks really decode to) + 8 MiB (+ 8 MiB per block for zstd, whose decoders cost megabytes each on intact files); with original metadata the result is the exact uncorrupted answer or Err != nil; every returned row is a row that was written, byte for byte (for deep mutations: whenever the mutation left the framed rows byte-identical to written rows). non-trivial = input that at least one call rejected with an error; distinct = distinct mutated contents",
+			Rule:        "case = an engine-written multi-block file (all three codecs across cases; every eighth case zstd blocks of repetitive rows that decode to several hundred KiB from about a KiB, far beyond 32x their stored size) x a batch of mutated inputs, each written to disk before it is used. Byte mutations: single/multi bit flips, byte bursts, truncation at every structural boundary +-1, extension, splices from another file, zeroed ranges, the footer's length and version fields set to boundary values (next to the file size, 2^31, 2^32), each targeted at row data, filter region, file filter section, metadata JSON, CRC, length, version, magic. Framing mutations: the footer JSON re-encoded with a consistent CRC and one or two of {region offset/size, block row-data offset/size, block filter offset/size, file filter section size, block UncompressedSize, block Rows} set to boundary values (-1, 0, 1, size+-1, 2^31+-1, 2^40, 2^62, int64 extremes) or PRNG values. Deep mutations (every 4th input): the file is taken apart with the independent parser and re-assembled with every checksum (row-data hash, section CRC, metadata CRC) and extent consistent but one part malformed inside: a row stream with an overrunning / short / truncated length prefix, a row that is not a JSON object, a zero-length row, a doubled stream; a block or file-level filter section with unknown flag bits, flags claiming absent filters, an arbitrary filter length, trailing bytes, a bloom header field (m, k, bitset length) at a boundary value, a garbage or cut payload; UncompressedSize or Rows disagreeing with the stream; stored bytes that are not a stream of the declared codec. Hash-less leg (per case, before the inputs): a MemoryMetaStore holds the file's metadata with the optional row-data hashes removed, the bytes live in a FileSystemDataStore (os.File handles), and the file is cut at every block boundary +-1, mid-block and at PRNG points: ReadDataBlockRowData over an os.File and a bytes.Reader must fail for every extent that runs past the end, blocks wholly inside must yield written rows, and queries must answer exactly or report an error. Per input: ReadFileMetadata, then ReadDataBlockRowData / ReadDataBlockBloomFilters / BlockRowScanner with the metadata it returned (or the original metadata), a query through MemoryMetaStore holding the original metadata over the mutated bytes, and a query through FileSystemDataStore scanning the mutated file. Oracle: no panic or fatal error; TotalAlloc delta per call <= 16 x (file size + the bytes the blocks really decode to) + 8 MiB (+ 8 MiB per block for zstd, whose decoders cost megabytes each on intact files); with original metadata the result is the exact uncorrupted answer or Err != nil; every returned row is a row that was written, byte for byte (for deep mutations: whenever the mutation left the framed rows byte-identical to written rows). non-trivial = input that at least one call rejected with an error; distinct = distinct mutated contents",
 			Assumptions: []string{"helpers are called with metadata that ReadFileMetadata returned for the mutated file, or with the original metadata over mutated bytes (a MetaStore that hands out unvalidated row-data extents is outside the property)"},
 			Floors:      map[string]int64{"inputs": 3000, "inputs_rejected": 1500, "framing_inputs": 800, "deep_inputs": 800, "queries_memmeta": 3000, "queries_fsscan": 500, "hashless_truncations": 300, "cases_with_highly_compressible_blocks": 3, "queries_hashless": 900}},
 		Cases:        func(t string) int { return nQueries(t, 32, 1200) },
@@ -460,6 +460,20 @@ func byteMutation(r *core.Rand, b *c19Base, donor []byte) ([]byte, string) {
 		lo, hi = 0, len(mut)
 	}
 	pos := func() int { return lo + r.Intn(hi-lo) }
+	if n := len(mut); n >= 20 && r.Intn(12) == 0 {
+		// the fixed-width fields of the footer tail (none of them is under a CRC) set to
+		// boundary values: lengths next to the file size, next to 2^31 and next to 2^32 (where a
+		// 32-bit sum with the 20-byte tail wraps), versions next to the known one
+		field, off := "length", n-16
+		vals := []uint32{0, 1, uint32(n - 21), uint32(n - 20), uint32(n - 19), uint32(n), 1<<31 - 1, 1 << 31, 1<<32 - 21, 1<<32 - 20, 1<<32 - 19, 1<<32 - 16, 1<<32 - 4, 1<<32 - 1}
+		if r.Intn(4) == 0 {
+			field, off = "version", n-12
+			vals = []uint32{0, 1, 2, 4, 1 << 31, 1<<32 - 1}
+		}
+		v := core.Pick(r, vals)
+		binary.LittleEndian.PutUint32(mut[off:], v)
+		return mut, fmt.Sprintf("footerfield:%s=%d", field, v)
+	}
 	switch r.Intn(8) {
 	case 0:
 		p := pos()
